@@ -10,7 +10,7 @@ import muxcheck
 import muxgen
 
 LEVEL = "proof"
-CONE = ["Props/C02.v", "Proofs/MuxProofs.v", "Model/Writer.v", "Iso/IsoFile.v"]
+CONE = ["Props/C02.v", "Proofs/MuxProofs.v", "Proofs/MuxInv.v", "Model/Writer.v", "Iso/IsoFile.v"]
 
 
 def check(rep):
